@@ -100,9 +100,21 @@ pub fn replay_c07(case: &Value) -> Verdict {
 // ------------------------------------------------------------------------------------------------ C08
 
 pub fn check_c08(c: &TV, acc: &mut Acc, record: bool) -> Verdict {
-    let bytes = match vcat::encode(&c.ty, &c.val).0 {
-        Ok(b) => b,
-        Err(e) => return Verdict::Fail(format!("encoding failed: {e:?}")),
+    // a valid encoding: what the writer produces, or (when the case carries form choices that select at least one
+    // unknown-length node) the reference encoder's rendering in that other legal form
+    let mut forms = ScriptForms::new(c.forms.clone());
+    let alt = if c.forms.iter().any(|b| *b) { ref_encode_forms(&c.ty, &c.val, &mut forms).ok().filter(|_| forms.used_unknown > 0) } else { None };
+    let bytes = match alt {
+        Some(f) => {
+            if record {
+                acc.bump("values_truncated_in_unknown_length_form", 1);
+            }
+            f.bytes
+        }
+        None => match vcat::encode(&c.ty, &c.val).0 {
+            Ok(b) => b,
+            Err(e) => return Verdict::Fail(format!("encoding failed: {e:?}")),
+        },
     };
     if bytes.is_empty() {
         if record {
